@@ -48,10 +48,13 @@ def outcome(reply):
     return tuple(f[:i])
 
 
-def perturb(rng, case, info):
+ALL_MODES = ["ok", "ok", "unused", "invalid-vector", "duplicate", "rc-duplicate", "palindrome", "missing",
+             "invalid-module", "fault", "fault-vector", "same-object", "bad-citation"]
+
+
+def perturb(rng, case, info, modes=None):
     """turn a well-formed assembly into one of the failing / warning shapes"""
-    mode = rng.choice(["ok", "ok", "unused", "invalid-vector", "duplicate", "rc-duplicate", "missing", "invalid-module",
-                       "fault", "fault-vector", "same-object", "bad-citation"])
+    mode = rng.choice(modes or ALL_MODES)
     mods = case["mods"]
     enz = asm.enzyme(case["enz"])
     name = case["enz"]
@@ -71,6 +74,18 @@ def perturb(rng, case, info):
             wd, _ = gen.gen_module(rng, enz, gen.rc(md["o5"]), gen.ovh(rng, enz), tries=100)
             mods.append(asm.ent_json(92, "generic:M:" + name, wd))
         except RuntimeError:
+            mode = "ok"
+    elif mode == "palindrome":
+        # a module whose upstream overhang is its own reverse complement (refused as a reverse-complementing pair)
+        k = len(info["mparts"][0]["o5"])
+        if k % 2 == 0 and k >= 2:
+            half = gen.rnd_avoid(rng, k // 2, (enz.site, gen.rc(enz.site)))
+            try:
+                wd, _ = gen.gen_module(rng, enz, half + gen.rc(half), gen.ovh(rng, enz), tries=100)
+                mods.append(asm.ent_json(93, "generic:M:" + name, wd))
+            except RuntimeError:
+                mode = "ok"
+        else:
             mode = "ok"
     elif mode == "missing" and len(mods) > 1:
         mods.pop(rng.randrange(len(mods)))
